@@ -281,10 +281,14 @@ fn probe_many_hunks(cx: &mut Cx) -> CaseResult {
 /// two) below an interrupted band that stops at a path inside one of those hunks — at its
 /// first, its middle and its last entry, early, in the middle and late in the index.
 fn probe_long_multi_entry_index(cx: &mut Cx) -> CaseResult {
-    for (per_hunk, n_hunks) in [(3usize, 1400usize), (2, 2500)] {
+    // (the third configuration crosses into a second index sub-directory: 10 004 hunks, the
+    // interrupted band ending in the last hunk of the first sub-directory and in the first
+    // two of the second)
+    for (per_hunk, n_hunks) in [(3usize, 1400usize), (2, 2500), (2, 10_004)] {
         let n = per_hunk * n_hunks;
         let paths: Vec<String> = (0..n).map(|i| format!("/f{i:05}")).collect();
-        for stop_hunk in [7usize, n_hunks / 2, n_hunks - 3] {
+        let stops = if n_hunks > 10_000 { vec![9_999usize, 10_000, 10_001] } else { vec![7usize, n_hunks / 2, n_hunks - 3] };
+        for stop_hunk in stops {
             for within in 0..per_hunk {
                 crate::engine::heartbeat();
                 let root = cx.dir("long-multi");
